@@ -18,7 +18,7 @@ class C12(P.Property):
     pid = "C12"
     level = "exploration"
     mode = "frontend"
-    tiers = {"quick": dict(runs=8000, budget_s=60), "thorough": dict(runs=220000, budget_s=800)}
+    tiers = {"quick": dict(runs=8000, budget_s=60), "thorough": dict(runs=180000, budget_s=800)}
     technique = ("deterministic simulation: seeded interleavings of up to three overlapping websocket connections on one service id "
                  "(virtual-time loop, in-memory TCP, cleanup timer schedulable), history oracle over server-side events + probe")
     level_text = ("seeded exploration of interleavings (connection opens, requests, graceful/aborted closes, gaps around the 1 s "
@@ -44,10 +44,11 @@ class C12(P.Property):
         world.setup_frontend()
         self.worlds = {}
 
-    def world_for(self, scheme):
-        w = self.worlds.get(scheme)
+    def world_for(self, scheme, big=False):
+        key = (scheme, big)
+        w = self.worlds.get(key)
         if w is None:
-            world.seed_randomness(("c12-world", scheme))
+            world.seed_randomness(("c12-world", scheme, big))
             L, cfg0 = fe.default_config(scheme)
             S = L.SSEScheme(dict(cfg0))
             idsz = fe.id_size(cfg0)
@@ -55,8 +56,10 @@ class C12(P.Property):
             for n in "PABC":
                 K = S.KeyGen()
                 db = {b"w": [(n.encode() * idsz)[:idsz], (n.lower().encode() * idsz)[:idsz]], b"x": [(b"x" + n.encode() * idsz)[:idsz]]}
+                if big:  # an index of about 9 MiB (code paths that only large payloads take)
+                    db[b"w"] = [n.encode() + i.to_bytes(idsz - 1, "big") for i in range(1, 125001)]
                 acts[n] = dict(db=db, edb=S.EDBSetup(K, db).serialize(), tok=S.TokenGen(K, b"w").serialize(), cfg=dict(cfg0, salt="salt-" + n))
-            w = self.worlds[scheme] = dict(L=L, cfgobj=L.SSEConfig(dict(cfg0)), acts=acts)
+            w = self.worlds[key] = dict(L=L, cfgobj=L.SSEConfig(dict(cfg0)), acts=acts)
         return w
 
     # ------------------------------------------------------------------ generation
@@ -82,13 +85,15 @@ class C12(P.Property):
                      net=rng.choice([dict(lo=0.001, hi=0.05), dict(lo=0.001, hi=0.05, seg=3), dict(lo=0.0005, hi=0.004),
                                      dict(lo=0.01, hi=0.3, tail=0.1, seg=2)]),
                      skew=rng.choice([1.0, 1.0, 0.5, 2.0]), bufsize=rng.choice([8192, 8192, 16]), gc_every=rng.choice([0, 0, 0, 1, 2]))
+        if tier == "thorough" and rng.random() < float(os.environ.get("VERIF_C12_BIG_RATE", "0.0015")):
+            knobs.update(scheme="CJJ14.PiBas", big=True)
         return {"property": "C12", "seed": seed, "knobs": knobs, "steps": steps}
 
     # ------------------------------------------------------------------ execution
     def execute(self, plan):
         res = P.Result()
         knobs = plan["knobs"]
-        w = self.world_for(knobs["scheme"])
+        w = self.world_for(knobs["scheme"], bool(knobs.get("big")))
         run = fe.Run(plan["seed"], knobs)
         meta_writes = []  # (event index, state, site, conn)
 
@@ -356,7 +361,7 @@ class C12(P.Property):
     # ------------------------------------------------------------------ minimisation
     def simplifications(self, plan):
         k = plan["knobs"]
-        for key, val in (("skew", 1.0), ("bufsize", 8192), ("scheme", "CJJ14.PiBas"), ("net", dict(lo=0.01, hi=0.01)), ("gc_every", 0)):
+        for key, val in (("skew", 1.0), ("bufsize", 8192), ("scheme", "CJJ14.PiBas"), ("net", dict(lo=0.01, hi=0.01)), ("gc_every", 0), ("big", False)):
             if k.get(key) != val:
                 yield dict(plan, knobs=dict(k, **{key: val}))
         if k["init_state"] > 0:
